@@ -32,7 +32,7 @@ def aggregate(rep, results, ref_only, oracles, api, note):
             if v.get('replay') == 'NONDETERMINISTIC':
                 raise SystemExit('HARNESS-ERROR: nondeterministic replay for %s' % r['key'])
             key = '%s:%s:%s' % (r['key'], v['oracle'], dxlib.why_class(v['why']))
-            rep.violation(key, '%s: %s (forced=%s, model margin=%s)' % (r['key'], v['why'], v['forced'], v['margin']), dxlib.replay_text(r, v, api))
+            rep.violation(key, '%s: %s (forced=%s, model margin=%s)' % (r['key'], v['why'], v['forced'], v['margin']), dxlib.replay_text(r, v, r.get('api', api)))
     if dxlib.SKIPPED:
         exhaustive = False
     cov['configurations_not_explored_before_the_deadline'] = dxlib.SKIPPED
